@@ -1,6 +1,6 @@
 SPECIFICATION Spec
 CONSTANTS
-  NGood = 20
+  NGood = 21
   NFail = 0
   MaxLen = 8
   MinFail = 0
